@@ -33,7 +33,8 @@ def scenarios(pid, tier, seed):
                 + spawn_scen.fam_faults(seed, False)[::3] + spawn_scen.fam_wiring(seed, False)[::7])
     if pid == "C18":
         # (also through the PATH search: attempts that fail before the one that starts the program)
-        return spawn_scen.fam_signals(seed, big) + spawn_scen.fam_path(seed, False)[::3]
+        return (spawn_scen.fam_signals(seed, big) + spawn_scen.fam_path(seed, False)[::3]
+                + [x for x in spawn_scen.fam_faults(seed, False) if x.get("fault", {}).get("kind") == "signal"])
     raise ToolError("no spawn scenarios for " + pid)
 
 
